@@ -9,6 +9,7 @@ from .rules import raises as R
 from .rules import reflect as RF
 from .rules import shape as SH
 from .rules import sig as SG
+from .rules import shape2 as S2
 
 COMMON_ASSUMPTIONS = [
     "Python semantics on JSON-like operands as tabulated in vstatic/pymodel.py (NaN and >64-bit numbers excluded, as in the properties)",
@@ -18,7 +19,7 @@ COMMON_ASSUMPTIONS = [
 ]
 SHAPE_ASSUMPTION = "recognised-form rules decide only expressions inside their vocabulary; anything else is reported as undecided in this file and is not a violation"
 
-ALL_ROOTS = {"schema", "data", "rule", "cond", "source", "path", "part", "result"}
+ALL_ROOTS = {"schema", "data", "rule", "cond", "source", "path", "part", "result", "global"}
 
 
 def _merge(jobs, keys):
@@ -44,7 +45,7 @@ def r_raise_c01(ctx):
 # -- C02 -----------------------------------------------------------------------------------
 def r_pure_c02(ctx):
     merged, labels = P.op_jobs(ctx)
-    return P.mutation_rule("R-PURE/C02", [(l, merged[l]) for l in labels], {"a", "b"},
+    return P.mutation_rule("R-PURE/C02", [(l, merged[l]) for l in labels], {"a", "b", "global"},
                            "the combination was built / inspected (an operand, or an object reachable from it)", floor=1)
 
 
@@ -78,8 +79,66 @@ def r_escape_c08(ctx):
 # -- C16 -----------------------------------------------------------------------------------
 def r_pure_c16(ctx):
     merged, labels = P.parse_jobs(ctx)
-    return P.mutation_rule("R-PURE/C16", [(l, merged[l]) for l in labels], {"spec"},
+    return P.mutation_rule("R-PURE/C16", [(l, merged[l]) for l in labels], {"spec", "global"},
                            "the parser was called (its spec argument or anything reachable from it)", floor=10)
+
+
+# -- C18 / C12 / C13 / C15 / C17 ----------------------------------------------------------------
+def r_pure_c18(ctx):
+    m = P.misc_jobs(ctx)["add_schema"]
+    return P.mutation_rule("R-PURE/C18", [("add_schema", m)], {"T", "R", "global"},
+                           "add_schema was called (the added schema, the root path, or anything reachable from them)", floor=2)
+
+
+def r_alias_c18(ctx):
+    m = P.misc_jobs(ctx)["add_schema"]
+    return P.alias_rule("R-ALIAS/C18", m, "S", {"T"}, "the added schema")
+
+
+def r_pure_ser(name, keys, roots):
+    def rule(ctx):
+        j = P.misc_jobs(ctx)
+        r = P.mutation_rule(name, [(k, j[k]) for k in keys], set(roots) | {"global"}, "the serialiser was called (self or anything reachable from it, or module-level state)", floor=0)
+        # the serialised structure must not hand out module-level mutable objects
+        for k in keys:
+            for ret in j[k].rets:
+                orgs = {o[0] for o in ret.all_orgs(6)}
+                inst = {"entry": k, "returned": ret.short()[:100], "aliases module-level state": "global" in orgs}
+                r.instances.append(inst)
+                if "global" in orgs:
+                    from .report import Finding
+                    r.fail(Finding(name, f"R-FRESH|{k}", "valida", f"the value returned by {k} contains a module-level mutable object: every caller receives the same object, so an edit of one result changes later results", []))
+                else:
+                    r.ok()
+        return r
+    return rule
+
+
+def r_pure_c15(ctx):
+    merged, labels = P.pure_jobs(ctx)
+    keep = [l for l in labels if l in ("validate", "validate_wrapped", "rule_test", "rule_test_shared")]
+    return P.mutation_rule("R-PURE/C15", [(l, merged[l]) for l in keep], ALL_ROOTS,
+                           "validation with casts was called (only the private deep copy may be written)", floor=10)
+
+
+def r_escape_c15(ctx):
+    merged, labels = P.pure_jobs(ctx)
+    keep = [l for l in labels if l in ("validate", "validate_wrapped", "rule_test", "rule_test_shared")]
+    return P.escape_rule("R-ESCAPE/C15", [(l, merged[l]) for l in keep], "PRIV", ALL_ROOTS, "used for casts", floor=1)
+
+
+def r_pure_c17(ctx):
+    merged, labels = P.pure_jobs(ctx)
+    keep = [l for l in labels if l in ("filter", "filter_wrapped", "rule_test")]
+    return P.mutation_rule("R-PURE/C17", [(l, merged[l]) for l in keep], ALL_ROOTS,
+                           "the condition was evaluated (stored path arguments must be resolved per evaluation, never overwritten)", floor=10)
+
+
+def r_global_c09(ctx):
+    merged, labels = P.parse_jobs(ctx)
+    keep = [l for l in labels if l.startswith("conditions.")]
+    return P.mutation_rule("R-GLOBAL/C09", [(l, merged[l]) for l in keep], {"global"},
+                           "parsing (module-level state: a parse must depend on the spec only)", floor=5)
 
 
 PROPERTIES = {
@@ -108,6 +167,46 @@ PROPERTIES = {
         ),
         assumptions=COMMON_ASSUMPTIONS + [SHAPE_ASSUMPTION],
     ),
+    "C03": dict(
+        rules=[r_raise_c03, S2.rule_deleg, S2.rule_lockstep],
+        explanation=(
+            "Clauses decided: (1) 'a part that does not apply to a node matches nothing rather than raising' - every operation reachable from DataPath.get_data / Data.get "
+            "on a document-derived value, and every raise depending on one (container-kind checks of the parts, Data.__init__, key/index refusal), is covered by the per-node handler "
+            "(exception-effect analysis, modifier-free paths); (2) all entry points delegate to get_data and the not-found result is None / [] by path kind; "
+            "(3) the frontier bookkeeping visits every node of the previous level once.  Not decided: that the selected set equals the part-by-part walk for every path x document."
+        ),
+        assumptions=COMMON_ASSUMPTIONS + [SHAPE_ASSUMPTION],
+    ),
+    "C04": dict(
+        rules=[S2.rule_lockstep, S2.rule_enum, S2.rule_writers],
+        explanation=(
+            "Clauses decided: (1) value frontier and path frontier advance in lock-step: parent paths are looked up by the node's position in the full previous frontier, both frontiers are "
+            "extended from the same filtered object or skipped together, only length-preserving steps touch them before they are zipped; (2) each datum / multiplicity modifier has a method, "
+            "an enum member and a branch that agree (type / len / keys / values; first / last / single / all); (3) modifier helpers set one field on a fresh copy (so application order cannot matter), "
+            "multiplicity is refused on concrete paths, and path fields are written only by the constructor.  Not decided: truthfulness of the reported keys for all documents."
+        ),
+        assumptions=[SHAPE_ASSUMPTION, "the filtered object's `.data` and `.keys` are the partition views decided under C01 (R-TT/C01)"],
+    ),
+    "C05": dict(
+        rules=[S2.rule_collect, S2.rule_record, S2.rule_flag, S2.rule_lockstep, S2.rule_thread],
+        explanation=(
+            "Clauses decided: (1) collection discipline of RuleTest._test - selection with paths on the test's own document, path-exists test, filter under that guard, verdict = all(result), "
+            "every failing item and only failing items recorded, failures published after collection, count = len; Rule.test returns a fresh RuleTest on the (cast) copy; "
+            "(2) the failure record carries the item's own index / value / concrete path / reasons, all read at one index; (3) paths are split off exactly where data_has_paths says; "
+            "(4) concrete paths stay aligned with values (R-LOCKSTEP); (5) the source document is threaded unchanged.  Not decided: 'at least one textual reason', and equality of the failure list "
+            "with the set of failing nodes for every document beyond this discipline."
+        ),
+        assumptions=[SHAPE_ASSUMPTION],
+    ),
+    "C06": dict(
+        rules=[S2.rule_fold, S2.rule_sort, S2.rule_rettype],
+        explanation=(
+            "Clauses decided: (1) is_valid / num_failures / num_rules_tested are order-insensitive reducers (all / sum) of the per-rule attribute over all rule tests; rule_tests tests every rule once "
+            "on the same document and copy; validate builds a fresh result each call; (2) every binding of Schema.rules is sorted(<all rules>, key=len(path)) - stable, ascending; "
+            "(3) both failure reports return a str on every path and their loops visit every element.  Not decided: numeric equality of the aggregates with per-rule values for run-time data."
+        ),
+        assumptions=[SHAPE_ASSUMPTION, "cast-free rule tests cannot influence each other: decided under C08 (R-PURE)"],
+    ),
     "C07": dict(
         rules=[r_raise_c07_validate, r_raise_c07_rule_test],
         explanation=(
@@ -131,7 +230,7 @@ PROPERTIES = {
         assumptions=COMMON_ASSUMPTIONS + ["callees unknown to the analyser are assumed not to mutate their arguments (counted as 'unmodelled' events in the evidence)"],
     ),
     "C09": dict(
-        rules=[SG.rule_sig, SG.rule_tables_c09, SG.rule_ladder, RF.rule_reflect, SG.rule_tokens, SH.rule_tt_c02],
+        rules=[SG.rule_sig, SG.rule_tables_c09, SG.rule_ladder, RF.rule_reflect, SG.rule_tokens, SH.rule_tt_c02, r_global_c09],
         explanation=(
             "Clauses decided: every DSL constructor is reachable from a spec and means the same comparison - (1) constructor <-> callable name, parameters, "
             "kinds, storage and reachability after lower-casing (R-SIG); (2) alias / pre-processor / type-name / operator / datum tables are closed and consistent "
@@ -151,6 +250,25 @@ PROPERTIES = {
         ),
         assumptions=COMMON_ASSUMPTIONS + [SHAPE_ASSUMPTION],
     ),
+    "C12": dict(
+        rules=[S2.rule_guarded, r_pure_ser("R-PURE/C12", ["to_part_specs", "simplify"], ["path"])],
+        explanation=(
+            "Clause decided: a primitive or bare-type part spec is emitted only under guards that establish its meaning, otherwise serialisation raises - simplify() emits the 'value' argument "
+            "only for a single Key/Index equal_to condition of the right part class (full guard sets checked), to_part_specs never reads a condition's argument directly, emits a bare type only "
+            "for a null condition without label, and refuses everything else; the serialisers store nothing into the path and hand out no shared module-level object.  "
+            "Not decided: that the rebuilt path selects the same nodes."
+        ),
+        assumptions=[SHAPE_ASSUMPTION] + COMMON_ASSUMPTIONS[:2],
+    ),
+    "C13": dict(
+        rules=[S2.rule_fields, SG.rule_castinv, r_pure_ser("R-PURE/C13", ["rule_to_json", "schema_to_json"], ["rule", "schema"])],
+        explanation=(
+            "Clauses decided: (1) Rule.to_json_like emits only JSON-typed fields (condition / path through their own serialisers, cast as type names), the keys it writes are the keys from_spec reads, "
+            "schemas map their rule list element-wise; (2) by finite evaluation over CAST_LOOKUP, what the writer emits for each cast parses back to the same cast; "
+            "(3) fields that equality compares but the JSON form does not carry are only ever constant; serialisation is pure.  Not decided: equality of results on every document (inherits C11/C12)."
+        ),
+        assumptions=[SHAPE_ASSUMPTION] + COMMON_ASSUMPTIONS[:2],
+    ),
     "C14": dict(
         rules=[E.rule_eqstate, E.rule_eq_pure],
         explanation=(
@@ -158,6 +276,16 @@ PROPERTIES = {
             "super().__eq__, _members() and property getters), compares exact types symmetrically before touching the other operand, combination equality "
             "is invariant under swapping the children, and no __eq__ stores into its operands (mutation analysis).  Exempt: Rule.doc.  "
             "Not decided: transitivity over argument values with exotic ==, and multiset-versus-set semantics of unrecognised comparison forms (reported as undecided)."
+        ),
+        assumptions=COMMON_ASSUMPTIONS + [SHAPE_ASSUMPTION],
+    ),
+    "C15": dict(
+        rules=[r_pure_c15, r_escape_c15, r_raise_c07_rule_test, S2.rule_looptry, SG.rule_castinv],
+        explanation=(
+            "Clauses decided: (1) casts write only into a deep private copy (mutation analysis of Rule.test / Schema.validate: every write reachable from them targets the deepcopy, shared across a schema's rules); "
+            "(2) nothing of the caller's is stored into the copy - only the freshly cast value; (3) a cast that fails (whatever the cast table's functions can raise) leaves the node and does not abort the other nodes "
+            "(handler coverage by exception-effect analysis; try/except inside the per-node loop); (4) the write-back uses the cast result, the copy and the node's own concrete path; cast tables are invertible.  "
+            "Not decided: that exactly the castable nodes are replaced for every document."
         ),
         assumptions=COMMON_ASSUMPTIONS + [SHAPE_ASSUMPTION],
     ),
@@ -171,6 +299,25 @@ PROPERTIES = {
             "module-level mutable state."
         ),
         assumptions=COMMON_ASSUMPTIONS,
+    ),
+    "C17": dict(
+        rules=[S2.rule_thread, S2.rule_depth, r_pure_c17],
+        explanation=(
+            "Clauses decided: (1) source_data is forwarded unchanged along every call edge from the rule test to argument resolution; (2) the resolver descends into every container kind in which the parser "
+            "can place a path object (lists, tuples, mapping values), resolves with get_data(source_data, return_paths=False) and builds new containers; the parser stores whatever DataPath.from_spec returns "
+            "(a path, or the un-escaped literal of a '\\path' mapping), and the escape branch precedes the single-key check; (3) evaluating a condition stores nothing into it (stored path arguments are never overwritten).  "
+            "Not decided: agreement of verdicts with the literal-substituted rule for all documents."
+        ),
+        assumptions=COMMON_ASSUMPTIONS + [SHAPE_ASSUMPTION],
+    ),
+    "C18": dict(
+        rules=[r_pure_c18, r_alias_c18, S2.rule_once_c18, S2.rule_sort, S2.rule_writers],
+        explanation=(
+            "Clauses decided: (1) add_schema performs no store into the added schema, the root path or anything reachable from them (mutation analysis) and does not share the added schema's rule list with the receiver; "
+            "(2) exactly one re-rooted rule (root_path / rule.path) is appended per rule of the added schema on every path; the result is re-sorted by path length; "
+            "(3) path fields are written only by the path constructor (so `/` recomputes derived state).  Not decided: behavioural equivalence with 'T judged at R'."
+        ),
+        assumptions=COMMON_ASSUMPTIONS + [SHAPE_ASSUMPTION],
     ),
     "C19": dict(
         rules=[RF.rule_reflect, R.rule_c19_raises, P.rule_newinit, SG.rule_tokens],
@@ -194,6 +341,55 @@ NOT_APPLICABLE = {
 
 _AI = "static analysis by abstract interpretation (types x origins x taint) over the resolved call graph"
 MANIFEST_TEXT = {
+    "C03": dict(
+        level="Decides the clause the suite never exercises - an inapplicable part matches nothing instead of raising - for all modifier-free paths and documents, plus delegation of the entry points and frontier bookkeeping. "
+              "Equality of the selected set with the specification walk is not decided.",
+        note="trusts the operator->exception table and the closed-world assumption",
+        technique=_AI + "; structural rules for delegation and bookkeeping",
+    ),
+    "C04": dict(
+        level="Decides alignment of values and concrete paths (lock-step bookkeeping), agreement of modifier enum / method / branch, and that modifiers are order-independent single-field copies. "
+              "Truthfulness of the keys themselves rests on C01's partition views.",
+        note="recognised-form rules: unrecognised rewrites are undecided, not alarms",
+        technique="structural dataflow rules on DataPath.get_data (index provenance, same-source extension, length preservation) + enum/method/branch agreement",
+    ),
+    "C05": dict(
+        level="Decides the collection discipline of a rule test (every failing item and only failing items, verdict formula, record fields, path alignment, document threading). "
+              "Behavioural equality with the set of failing nodes for every document is not decided.",
+        note="recognised-form rules over RuleTest._test, Rule.test, FilteredDataItem and the flag sites",
+        technique="structural path / guard rules on the AST (append counting on all paths, guard normal forms, keyword binding)",
+    ),
+    "C06": dict(
+        level="Decides that the aggregates are order-insensitive folds over all rule tests, that rules are stably sorted by path length, that validate builds a fresh result, and that reports are strings on every path.",
+        note="recognised-form rules; numeric equality with per-rule values follows under the trusted model of all/sum",
+        technique="recognised-form rules on reducers, sort bindings and return types",
+    ),
+    "C12": dict(
+        level="Decides the 'never silently emit a different path' clause structurally: every primitive / bare-type emission is under the guards that establish its meaning, everything else raises; serialisation is pure and hands out no shared state.",
+        note="the guard sets of simplify() are frozen from reading the code (8 conjuncts); a behaviour-preserving rewrite that drops none of them stays silent",
+        technique="guard-set (dominating condition) rule + mutation / aliasing analysis of the serialisers",
+    ),
+    "C13": dict(
+        level="Decides JSON-typing and reader/writer field agreement of the rule / schema serialisers, cast round trip by finite evaluation over the whole cast table, and that non-serialised compared fields stay constant.",
+        note="finite evaluation covers every entry of CAST_LOOKUP; document-level equality inherits C11/C12",
+        technique="finite evaluation of the writer's cast expression against the reader's tables + field-agreement rules",
+    ),
+    "C15": dict(
+        level="Decides the private-copy discipline (only the deep copy is written, nothing of the caller's stored into it), cast-failure containment per node, and write-back provenance. "
+              "Does not decide that exactly the castable nodes are replaced for every document.",
+        note="trusts the builtin effect table, the operator->exception table and the cast tables as read from source",
+        technique=_AI + " for mutation / escape / handler coverage; structural rule for try scope and write-back",
+    ),
+    "C17": dict(
+        level="Decides threading of the source document, resolver depth versus parser placement depth, escape handling order, and purity of evaluation with respect to stored path arguments.",
+        note="recognised-form rules plus the C08 mutation analysis restricted to the evaluation entry points",
+        technique="call-site keyword forwarding rule, placement-depth vs resolver-depth comparison, mutation analysis",
+    ),
+    "C18": dict(
+        level="Decides that add_schema leaves the added schema and root untouched and unshared, adds exactly one re-rooted rule per rule, re-sorts, and that path concatenation goes through the constructor.",
+        note="condition / cast / doc objects of the added rules are shared by design (immutable by C08)",
+        technique="mutation + container-aliasing analysis of add_schema; append-counting and sort-binding rules",
+    ),
     "C01": dict(
         level="Decides six structural clauses, each a necessary condition of the property, for all conditions and documents at once: error containment of the item loop, one flag set per item, "
               "result formula and partition views, constructor<->callable binding, documented meaning of each comparison (normal-form oracle), pre-processor table. Does not decide run-time truth values.",
